@@ -81,7 +81,7 @@ def main():
     with tempfile.TemporaryDirectory() as td:
         src = os.path.join(td, "audit.rs")
         open(src, "w").write("#![allow(overflowing_literals, unused_parens, arithmetic_overflow)]\n" + "\n".join(decls) + "\n" + "\n".join(lines) + "\n")
-        p = subprocess.run(["rustc", "-C", "opt-level=0", "-C", "overflow-checks=off", "-C", "debuginfo=0", "-o", os.path.join(td, "audit"), src], capture_output=True, text=True)
+        p = subprocess.run(["rustc", "--edition", "2021", "-C", "opt-level=0", "-C", "overflow-checks=off", "-C", "debuginfo=0", "-o", os.path.join(td, "audit"), src], capture_output=True, text=True)
         if p.returncode != 0:
             print("audit_std: cannot compile audit program:\n" + p.stderr[-3000:], file=sys.stderr)
             return 2
